@@ -15,6 +15,8 @@ CONSTANTS
   ClockAnomalies = FALSE
   CacheLoss = FALSE
   LiveRounds = TRUE
+  CachePutFails = TRUE
+  CrashInCreate = TRUE
   Stops = TRUE
 PROPERTIES NoStrandedSubmitter
 CHECK_DEADLOCK FALSE
